@@ -310,6 +310,104 @@ fn check_wrapper(ms: &[(u64, u64)], rep: &mut Report) {
     }
 }
 
+/// Operations that fail are not part of the data: a write into a full stream, a read past the end of a
+/// strict one. The statistics must describe exactly the values whose operation returned Ok.
+fn check_wrapper_failing(ms: &[(u64, u64)], rep: &mut Report) {
+    let kvf = || format!("shape=failing seed=0 ms={}", ms_to_string(ms));
+    let vals: Vec<u64> = ms.iter().flat_map(|&(n, c)| std::iter::repeat(n).take(c.min(6) as usize)).filter(|n| code_len(Code::Gamma, *n) <= 120).take(60).collect();
+    if vals.is_empty() {
+        return;
+    }
+    for (ci, code) in [Codes::Gamma, Codes::Delta, Codes::Zeta { k: 3 }].into_iter().enumerate() {
+        for room in [0usize, 1, 3, 8] {
+            // ---- writes into a slice with `room` bytes ----
+            let wr = CodesStatsWrapper::<Codes>::new(code);
+            let mut accepted: Vec<u64> = vec![];
+            let mut failed = 0u64;
+            {
+                let mut w = BufBitWriter::<BE, _>::new(MemWordWriterSlice::new(vec![0u8; room]));
+                for (i, &n) in vals.iter().enumerate() {
+                    let r = if (i + ci) % 2 == 0 { guard_v(|| DynamicCodeWrite::write(&wr, &mut w, n).is_ok()) } else { guard_v(|| StaticCodeWrite::write(&wr, &mut w, n).is_ok()) };
+                    match r {
+                        Out::Ok(true) => accepted.push(n),
+                        // the state of a bit writer after a failed write is not specified: stop here
+                        Out::Ok(false) => {
+                            failed += 1;
+                            break;
+                        }
+                        _ => {
+                            rep.violation("wrapper|failing-write|panic", || format!("write of {} through the statistics wrapper panicked", n), kvf);
+                            let _ = guard_v(move || drop(w));
+                            return;
+                        }
+                    }
+                }
+                // the writer's Drop flushes into the full slice and unwraps: not this property's business
+                let _ = guard_v(move || drop(w));
+            }
+            let mut exp_ms: Vec<(u64, u64)> = vec![];
+            for n in &accepted {
+                exp_ms.push((*n, 1));
+            }
+            let exp = model_totals(&exp_ms, 10, 20, 10, 10, 10);
+            let got = observed(&wr.stats().lock().unwrap());
+            rep.eval(1);
+            rep.count("failed_writes_through_the_wrapper", failed);
+            if got != exp {
+                rep.violation(
+                    &format!("wrapper|failing-write|{}", first_diff(&got, &exp)),
+                    || format!("{} of {} writes with {:?} into a {}-byte stream failed, yet the statistics are not those of the {} accepted values: {:?} vs {:?}", failed, vals.len(), code, room, accepted.len(), got, exp),
+                    kvf,
+                );
+                return;
+            }
+            if failed > 0 {
+                rep.case(&("failing-write", ci, room, accepted.len(), crate::report::hash_of(&vals)));
+            }
+        }
+        // ---- reads from a strict stream holding only the first few codes ----
+        let mut words: Vec<u8> = vec![];
+        let keep = vals.len() / 2;
+        {
+            let plain = CodesStatsWrapper::<Codes>::new(code);
+            let mut w = BufBitWriter::<BE, _>::new(MemWordWriterVec::new(&mut words));
+            for &n in &vals[..keep] {
+                let _ = DynamicCodeWrite::write(&plain, &mut w, n);
+            }
+        }
+        let rd = CodesStatsWrapper::<Codes>::new(code);
+        let mut r = BufBitReader::<BE, _>::new(MemWordReader::new_strict(&words[..]));
+        let mut got_vals: Vec<u64> = vec![];
+        let mut failed = 0u64;
+        for i in 0..vals.len() + 2 {
+            let res = if (i + ci) % 2 == 0 { guard_v(|| DynamicCodeRead::read(&rd, &mut r).ok()) } else { guard_v(|| StaticCodeRead::read(&rd, &mut r).ok()) };
+            match res {
+                Out::Ok(Some(v)) => got_vals.push(v),
+                Out::Ok(None) => {
+                    failed += 1;
+                    break;
+                }
+                _ => {
+                    rep.violation("wrapper|failing-read|panic", || "read through the statistics wrapper panicked".to_string(), kvf);
+                    return;
+                }
+            }
+        }
+        let exp_ms: Vec<(u64, u64)> = got_vals.iter().map(|v| (*v, 1)).collect();
+        let exp = model_totals(&exp_ms, 10, 20, 10, 10, 10);
+        let (_, stats) = rd.into_inner();
+        rep.eval(1);
+        rep.count("failed_reads_through_the_wrapper", failed);
+        if exp.fits() && observed(&stats) != exp {
+            rep.violation(
+                &format!("wrapper|failing-read|{}", first_diff(&observed(&stats), &exp)),
+                || format!("{} reads with {:?} failed at the end of a strict stream, yet the statistics are not those of the {} values returned: {:?} vs {:?}", failed, code, got_vals.len(), observed(&stats), exp),
+                kvf,
+            );
+        }
+    }
+}
+
 /// a wrapped code that yields a pseudo-random number of times inside `write`,
 /// then takes a ticket (the order of tickets approximates the order in which the
 /// threads go on to update the shared statistics)
@@ -466,6 +564,7 @@ pub fn run(ctx: &Ctx) -> Report {
                 check_shape::<12, 3, 7, 2, 5>(&ms, ss, rep);
                 check_shape::<1, 1, 1, 1, 1>(&ms, ss, rep);
                 check_wrapper(&ms, rep);
+                check_wrapper_failing(&ms, rep);
             }
         }
         Item::Threads(i) => {
@@ -495,6 +594,10 @@ pub fn replay(case: &str, rep: &mut Report) {
     }
     let ms = parse_ms(kv.get("ms"));
     let seed = kv.u64("seed");
+    if shape == "failing" {
+        check_wrapper_failing(&ms, rep);
+        return;
+    }
     if shape == "wrapper" {
         check_wrapper(&ms, rep);
         return;
